@@ -9,8 +9,14 @@ Only the idioms listed in DESIGN.md (comparisons, literal matches, Option/bool a
 insert/remove/len, mem::replace, as_ref/as_mut, delegation to get_child_mut) are interpreted; anything else makes
 the instance `undecided` (never a violation). Iterators (iter_children*, num_children) are evaluated to a shape
 directly. Places are paths of field names relative to the variant's payload, so renaming a binding or reformatting
-does not change a verdict."""
-from cao.facts import hir_strip, hir_callee, hir_local_id, pat_variants, pat_bindings, short, block_exprs
+does not change a verdict.
+
+The indexed accessors are evaluated as whole function bodies: the `match` whose scrutinee is the place `self.body` is
+resolved to the arm of the variant under consideration wherever it stands (statement, tail expression, inside a block),
+so `let res; match .. {arm => res = x} Some(res)` and `match .. {arm => Some(x)}` are the same to the evaluator. Calls of
+crate-local helper functions (`Self::take(slot)`, `self.helper(i)`, a fn path passed to Option::map/and_then) are
+inlined: parameters are bound to the evaluated arguments, a `return` of the helper ends the helper only."""
+from cao.facts import hir_strip, hir_callee, hir_local_id, hir_walk, pat_variants, pat_bindings, short, block_exprs
 
 CARDBODY = "compiler::card::CardBody"
 
@@ -26,6 +32,11 @@ class Return(Exception):
 
 class Panic(Exception):
     pass
+
+
+SELF = ("#self",)          # place of the accessor's receiver; SELF_BODY is the scrutinee of the per-kind match
+SELF_BODY = ("#self", "body")
+INLINE_DEPTH = 4
 
 
 def classify(ty):
@@ -108,6 +119,45 @@ def arms_of(fn):
     return arms, pre, tail
 
 
+def _variant_pat(p, variant):
+    """Does the arm pattern p accept CardBody::<variant>?  -> (hit, [(binding id, place)])"""
+    k = p.get("k")
+    if k in ("ref", "box", "deref"):
+        return _variant_pat(p["pat"], variant)
+    if k == "or":
+        for x in p["pats"]:
+            hit, b = _variant_pat(x, variant)
+            if hit:
+                return hit, b
+        return False, []
+    if k == "wild":
+        return True, []
+    if k == "bind":
+        if "sub" in p:
+            raise Undecided("binding @ pattern on CardBody")
+        return True, [(p["id"], SELF_BODY)]
+    if k == "tuple_struct" or (k == "expr" and "path" in p):
+        r = p["path"]["res"]
+        name = short(r.get("ctor_of") or r.get("path", ""))
+        if not name.startswith(CARDBODY + "::"):
+            raise Undecided("pattern %s on CardBody" % name)
+        if name[len(CARDBODY) + 2:] != variant:
+            return False, []
+        binds = []
+        subs = p["pats"] if k == "tuple_struct" else []
+        if len(subs) > 1:
+            raise Undecided("variant with several payload fields")
+        for sp in subs:
+            while sp.get("k") in ("ref", "box", "deref"):
+                sp = sp["pat"]
+            if sp.get("k") == "bind" and "sub" not in sp:
+                binds.append((sp["id"], ()))
+            elif sp.get("k") != "wild":
+                raise Undecided("destructuring payload pattern")
+        return True, binds
+    raise Undecided("pattern kind %s on CardBody" % k)
+
+
 class Interp:
     """Case-split evaluator (see module docstring)."""
 
@@ -117,6 +167,8 @@ class Interp:
         self.param_i = param_i
         self.param_card = param_card
         self.delegate = delegate  # callable(name, variant, i, L) -> value
+        self.variant = None
+        self.inlining = []        # short paths of the helpers being inlined (recursion guard)
 
     # --- places --------------------------------------------------------------------------------
     def place(self, e, env):
@@ -219,6 +271,9 @@ class Interp:
             raise Undecided("binop " + op)
         if k == "block":
             return self.block(e["block"], env)
+        if k == "let":
+            # `if let PAT = init` condition
+            return self.bind_pat(e["pat"], self.ev(e["init"], env), env)
         if k == "if":
             c = self._bool(self.ev(e["cond"], env))
             if c:
@@ -241,6 +296,11 @@ class Interp:
         if k == "closure":
             return ("closure", e, dict(env))
         raise Undecided("expr kind %s" % k)
+
+    def _int(self, v):
+        if isinstance(v, int) and not isinstance(v, bool):
+            return v
+        raise Undecided("non-integer index")
 
     def _bool(self, v):
         if isinstance(v, bool):
@@ -267,6 +327,12 @@ class Interp:
                 env[pat["id"]] = ("#val", ("uninit",))
                 return
             raise Undecided("let without init")
+        if st.get("els") is not None:
+            # let PAT = init else { diverge }
+            if not self.bind_pat(pat, self.ev(init, env), env):
+                self.block(st["els"], env)
+                raise Undecided("let-else block does not diverge")
+            return
         if pat.get("k") == "bind":
             p = self.place(init, env)
             if p is not None and classify(hir_strip(init).get("ty", "")) is not None:
@@ -326,40 +392,62 @@ class Interp:
             if isinstance(v, tuple) and v[0] == "some":
                 return v[1]
             raise Undecided("? on non-option")
+        sp = self.place(e["scrut"], env)
+        if sp == SELF_BODY:
+            return self.variant_match(e, env)
         v = self.ev(e["scrut"], env)
         for a in e["arms"]:
-            p = a["pat"]
-            k = p.get("k")
-            if k == "expr" and "lit" in p:
-                if isinstance(v, int) and not isinstance(v, bool) and p["lit"]["k"] == "int" and p["lit"]["v"] == v:
-                    return self.ev(a["body"], env)
-                continue
-            if k == "wild":
+            if a.get("guard") is not None:
+                raise Undecided("match guard")
+            if self.bind_pat(a["pat"], v, env):
                 return self.ev(a["body"], env)
-            if k == "tuple_struct":
-                nm = short(p["path"]["res"].get("ctor_of") or p["path"]["res"].get("path", ""))
-                if nm.endswith("::Some"):
-                    if isinstance(v, tuple) and v[0] == "some":
-                        sub = p["pats"][0]
-                        env2 = env
-                        if sub.get("k") == "bind":
-                            inner = v[1]
-                            env[sub["id"]] = inner[1] if (isinstance(inner, tuple) and inner[0] == "ref") else ("#val", inner)
-                        return self.ev(a["body"], env2)
-                    continue
-                raise Undecided("match pattern " + nm)
-            if k == "expr" and "path" in p:
-                nm = short(p["path"]["res"].get("ctor_of") or p["path"]["res"].get("path", ""))
-                if nm.endswith("::None"):
-                    if v == ("none",):
-                        return self.ev(a["body"], env)
-                    continue
-                raise Undecided("match pattern " + nm)
-            if k == "bind" and "sub" not in p:
-                env[p["id"]] = ("#val", v)
-                return self.ev(a["body"], env)
-            raise Undecided("match pattern kind %s" % k)
         raise Undecided("no arm matched")
+
+    def bind_pat(self, p, v, env):
+        """Does value v match pattern p?  Binds the pattern's variables in env. Literals, `_`, Some(x)/None, x."""
+        k = p.get("k")
+        if k == "expr" and "lit" in p:
+            return isinstance(v, int) and not isinstance(v, bool) and p["lit"]["k"] == "int" and p["lit"]["v"] == v
+        if k == "wild":
+            return True
+        if k == "tuple_struct":
+            nm = short(p["path"]["res"].get("ctor_of") or p["path"]["res"].get("path", ""))
+            if nm.endswith("::Some"):
+                if isinstance(v, tuple) and v[0] == "some":
+                    sub = p["pats"][0]
+                    if sub.get("k") == "bind" and "sub" not in sub:
+                        inner = v[1]
+                        env[sub["id"]] = inner[1] if (isinstance(inner, tuple) and inner[0] == "ref") else ("#val", inner)
+                    elif sub.get("k") != "wild":
+                        raise Undecided("nested pattern in Some(..)")
+                    return True
+                return False
+            raise Undecided("match pattern " + nm)
+        if k == "expr" and "path" in p:
+            nm = short(p["path"]["res"].get("ctor_of") or p["path"]["res"].get("path", ""))
+            if nm.endswith("::None"):
+                return v == ("none",)
+            raise Undecided("match pattern " + nm)
+        if k == "bind" and "sub" not in p:
+            env[p["id"]] = v[1] if (isinstance(v, tuple) and v and v[0] == "ref") else ("#val", v)
+            return True
+        raise Undecided("match pattern kind %s" % k)
+
+    def variant_match(self, e, env):
+        """`match self.body { .. }` (by value, & or &mut): the arm of the variant under consideration, first match wins.
+        Payload bindings denote the payload place ()."""
+        if self.variant is None:
+            raise Undecided("match on self.body outside a per-variant evaluation")
+        for a in e["arms"]:
+            hit, binds = _variant_pat(a["pat"], self.variant)
+            if not hit:
+                continue
+            if a.get("guard") is not None:
+                raise Undecided("guard on a CardBody arm")
+            for bid, pl in binds:
+                env[bid] = pl
+            return self.ev(a["body"], env)
+        raise Undecided("no arm for %s" % self.variant)
 
     def call(self, e, env):
         names = hir_callee(e)
@@ -380,7 +468,65 @@ class Interp:
                 self.effects.append(("replace", dst[1]))
                 return ("oldcard", dst[1])
             raise Undecided("replace target")
+        if any(n in ("compiler::card::Card::get_child", "compiler::card::Card::get_child_mut") for n in allnames) and len(e["args"]) == 2:
+            recv = self.ev(e["args"][0], env)
+            if recv != ("ref", SELF) or self.delegate is None:
+                raise Undecided("get_child on another card")
+            nm = [n for n in allnames if n.startswith("compiler::card::Card::get_child")][0].rsplit("::", 1)[-1]
+            return self.delegate(nm, self.variant, self.ev(e["args"][1], env), self.L)
+        helper = self.helper_fn(allnames)
+        if helper is not None:
+            return self.inline(helper, [self.ev(a, env) for a in e["args"]])
         raise Undecided("call %s" % allnames)
+
+    # --- helper functions ------------------------------------------------------------------------
+    def helper_fn(self, names):
+        """A crate-local function whose body is available (HIR) and can be inlined: params are plain bindings."""
+        for n in names:
+            if not n:
+                continue
+            f = self.F.fn(n, required=False)
+            if f is None or f.hir is None or f.is_closure or f.raw.get("from_expansion"):
+                continue
+            if all(p.get("k") == "bind" and "sub" not in p for p in f.hir.get("params", [])):
+                return f
+        return None
+
+    def inline(self, f, argvals):
+        """Evaluate the body of helper f with its parameters bound to the evaluated arguments. Effects go to the same
+        effect list; Return ends the helper; Panic/Undecided propagate."""
+        params = f.hir["params"]
+        if len(params) != len(argvals):
+            raise Undecided("arity of %s" % f.short)
+        if len(self.inlining) >= INLINE_DEPTH or f.short in self.inlining:
+            raise Undecided("helper %s: recursion / nesting too deep" % f.short)
+        env2 = {}
+        for p, v in zip(params, argvals):
+            env2[p["id"]] = v[1] if (isinstance(v, tuple) and v and v[0] == "ref") else ("#val", v)
+        self.inlining.append(f.short)
+        try:
+            return self.ev(f.hir["body"], env2)
+        except Return as r:
+            return r.val
+        finally:
+            self.inlining.pop()
+
+    def apply(self, fe, vals, env):
+        """Call the callable expression fe (closure literal or path of a helper fn) with already evaluated values."""
+        fe = hir_strip(fe)
+        if fe.get("k") == "closure":
+            params = fe.get("params", [])
+            if len(params) != len(vals):
+                raise Undecided("closure arity")
+            for p, v in zip(params, vals):
+                if not self.bind_pat(p, v, env):
+                    raise Undecided("closure parameter pattern")
+            return self.ev(fe["body"], env)
+        if fe.get("k") == "path" and fe["path"]["res"]["k"] == "def":
+            helper = self.helper_fn([short(fe["path"]["res"]["path"])])
+            if helper is not None:
+                return self.inline(helper, vals)
+        raise Undecided("callable argument")
 
     def mcall(self, e, env):
         name = e["name"]
@@ -397,23 +543,23 @@ class Interp:
         if name in ("get", "get_mut") and any("slice" in n for n in names):
             if recv_place is None or cls is None:
                 raise Undecided("get on unknown place")
-            idx = self.ev(e["args"][0], env)
+            idx = self._int(self.ev(e["args"][0], env))
             n = cls[1] if cls[0] == "array" else self.L
             if cls[0] == "card":
                 raise Undecided("get on card")
-            if isinstance(idx, int) and 0 <= idx < n:
+            if 0 <= idx < n:
                 return ("some", ("ref", recv_place + (("[]", idx),)))
             return ("none",)
         if name == "len" and recv_place is not None and cls is not None:
             return cls[1] if cls[0] == "array" else self.L
         if name == "remove" and cls == ("vec",) and recv_place is not None:
-            idx = self.ev(e["args"][0], env)
+            idx = self._int(self.ev(e["args"][0], env))
             if not (0 <= idx < self.L):
                 raise Panic()
             self.effects.append(("remove", recv_place, idx))
             return ("oldcard", recv_place + (("[]", idx),))
         if name == "insert" and cls == ("vec",) and recv_place is not None:
-            idx = self.ev(e["args"][0], env)
+            idx = self._int(self.ev(e["args"][0], env))
             c = self.ev(e["args"][1], env)
             if c != ("newcard",):
                 raise Undecided("insert of non-card")
@@ -421,6 +567,12 @@ class Interp:
                 raise Panic()
             self.effects.append(("insert", recv_place, idx))
             return ("unit",)
+        if name in ("checked_sub", "checked_add") and any(n.startswith("core::num::") for n in names) and len(e["args"]) == 1:
+            l = self._int(self.ev(e["recv"], env))
+            r = self._int(self.ev(e["args"][0], env))
+            if name == "checked_add":
+                return ("some", l + r)
+            return ("some", l - r) if l >= r else ("none",)
         if name == "then_some":
             c = self._bool(self.ev(e["recv"], env))
             v = self.ev(e["args"][0], env)
@@ -444,9 +596,22 @@ class Interp:
         if name == "ok_or":
             v = self.ev(e["recv"], env)
             return v
+        if name in ("map", "and_then") and any(n.endswith("Option::" + name) for n in names):
+            v = self.ev(e["recv"], env)
+            if v == ("none",):
+                return v
+            if not (isinstance(v, tuple) and v[0] == "some"):
+                raise Undecided("%s on non-option" % name)
+            r = self.apply(e["args"][0], [v[1]], env)
+            return ("some", r) if name == "map" else r
         if name in ("get_child_mut", "get_child") and any(n.startswith("compiler::card::Card::") for n in names):
+            if recv_place is not None and recv_place != SELF:
+                raise Undecided("%s on another card" % name)
             idx = self.ev(e["args"][0], env)
             return self.delegate(name, self.variant, idx, self.L)
+        helper = self.helper_fn(names)
+        if helper is not None:
+            return self.inline(helper, [self.ev(e["recv"], env)] + [self.ev(a, env) for a in e["args"]])
         raise Undecided("method %s" % name)
 
 
@@ -457,6 +622,33 @@ def param_ids(fn):
         if p.get("k") == "bind":
             ids[p["name"]] = p["id"]
     return ids
+
+
+def accessor_params(fn):
+    """(id of self, id of the index parameter, ids of the inserted-card parameter) of an indexed accessor, by type:
+    the index is the usize parameter, the card is what remains."""
+    self_id = i_id = None
+    cards = set()
+    for p in fn.hir["params"]:
+        if p.get("k") != "bind":
+            return None, None, set()
+        if p["name"] == "self":
+            self_id = p["id"]
+        elif p.get("ty", "").strip() == "usize" and i_id is None:
+            i_id = p["id"]
+        else:
+            cards.add(p["id"])
+    return self_id, i_id, cards
+
+
+def body_match(fn):
+    """The `match` over self.body of an accessor, wherever it stands in the body (None if there is none)."""
+    for x in hir_walk(fn.hir["body"]):
+        if x.get("k") == "match" and not str(x.get("source", "")).startswith("TryDesugar"):
+            names = [n for a in x["arms"] for n, _s, _p in pat_variants(a["pat"])]
+            if sum(1 for n in names if n.startswith(CARDBODY + "::")) >= 8:
+                return x
+    return None
 
 
 class Accessors:
@@ -472,14 +664,14 @@ class Accessors:
         for name in ("num_children", "iter_children", "iter_children_mut") + self.INDEXED:
             fn = F.fn("compiler::card::Card::" + name)
             arms, pre, tail = arms_of(fn)
-            if arms is None:
+            if arms is None and (name not in self.INDEXED or body_match(fn) is None):
                 from cao.facts import AnchorMissing
                 raise AnchorMissing("match on CardBody in Card::%s" % name)
             self.fns[name] = fn
             self.arms[name] = (arms, pre, tail)
 
     def arm_for(self, name, variant):
-        arms = self.arms[name][0]
+        arms = self.arms[name][0] or []
         for a in arms:
             if variant in a.variants:
                 return a
@@ -492,34 +684,15 @@ class Accessors:
         """One case of the split: ('slot', place) | ('elem', place, k) | ('list', place, idx) | ('fail',) |
         ('silent',) | ('panic',)"""
         fn = self.fns[name]
-        arm = self.arm_for(name, variant)
-        if arm is None:
-            raise Undecided("no arm for %s" % variant)
-        arms, pre, tail = self.arms[name]
-        ids = param_ids(fn)
-        card_ids = set()
-        if "card" in ids:
-            card_ids.add(ids["card"])
-        env = dict(arm.env)
-        for st in pre:
-            if st["pat"].get("k") != "bind":
-                raise Undecided("pre-statement pattern")
-            init = st.get("init")
-            if init is None:
-                env[st["pat"]["id"]] = ("#val", ("uninit",))
-                continue
-            init = hir_strip(init)
-            if init.get("k") == "mcall" and init["name"] == "into" and hir_local_id(init["recv"]) in card_ids:
-                card_ids.add(st["pat"]["id"])
-                continue
-            raise Undecided("pre-statement")
-        interp = Interp(self.F, fn, ids.get("i"), card_ids, self._delegate)
+        self_id, i_id, card_ids = accessor_params(fn)
+        if self_id is None or i_id is None:
+            raise Undecided("parameters of %s" % name)
+        # the whole body is evaluated; the match on self.body resolves to the arm of `variant` (Interp.variant_match)
+        env = {self_id: SELF}
+        interp = Interp(self.F, fn, i_id, card_ids, self._delegate)
         interp.i, interp.L, interp.variant, interp.effects = i, L, variant, []
         try:
-            interp.ev(arm.body, env)
-            if tail is None:
-                raise Undecided("no tail expression")
-            val = interp.ev(tail, env)
+            val = interp.ev(fn.hir["body"], env)
             how = "return"
         except Return as r:
             how, val = "return", r.val
